@@ -339,6 +339,24 @@ class SDate(Sym):
     __hash__ = Sym.__hash__
 
 
+def _as_sreldelta(o):
+    """a real dateutil.relativedelta (built from concrete amounts, so the constructor model was not
+    consulted) meeting a symbolic datetime: the same relative amounts as an SRelDelta"""
+    try:
+        from dateutil.relativedelta import relativedelta
+    except ImportError:
+        return None
+    if not isinstance(o, relativedelta):
+        return None
+    from .instrument import SRelDelta, Unsupported
+
+    if any(getattr(o, k) is not None for k in ("year", "month", "day", "weekday", "hour", "minute",
+                                               "second", "microsecond")) or o.leapdays:
+        raise Unsupported("relativedelta absolute fields / leapdays")
+    return SRelDelta(years=o.years, months=o.months, days=o.days, hours=o.hours, minutes=o.minutes,
+                     seconds=o.seconds, microseconds=o.microseconds)
+
+
 def _date_key(o):
     if isinstance(o, SDate):
         return o._key()
@@ -616,6 +634,9 @@ class SDateTime(Sym):
     def __add__(self, o):
         if isinstance(o, (_dt.timedelta, STimeDelta)):
             return self._shift(_td_us(o))
+        r = _as_sreldelta(o)
+        if r is not None:
+            return r.__radd__(self)
         return NotImplemented
 
     __radd__ = __add__
@@ -625,6 +646,9 @@ class SDateTime(Sym):
             return self._shift(-_td_us(o))
         if isinstance(o, (SDateTime, _dt.datetime)):
             return dt_diff(self, o)
+        r = _as_sreldelta(o)
+        if r is not None:
+            return r.__rsub__(self)
         return NotImplemented
 
     def __rsub__(self, o):
